@@ -101,7 +101,8 @@ mutual
 theorem wf_shift (d : Nat) : ∀ t : Ty, wf (shiftT d t) = wf t
   | .simple _ _ => rfl
   | .named [] => rfl
-  | .named (a :: rest) => rfl
+  | .named [_] => rfl
+  | .named (_ :: _ :: _) => rfl
   | .array _ _ item => by simp only [shiftT, wf, wf_shift d item]
   | .struct _ _ fs => by simp only [shiftT, wf, wfs_shift d fs]
 theorem wfs_shift (d : Nat) : ∀ fs : Fields, wfs (shiftFs d fs) = wfs fs
